@@ -22,11 +22,16 @@ def run():
                  "int30/mix for the others) and 900")
         eleph = "146..154 / 210"
         rnd = "4 000 seeded random values per mode"
+        colors = ("16-17 core values (all leaf kinds, one-line, multi-line, wrapped, nested) under every "
+                  "specification, 92 further values (tiny scope, flat containers L = 190/210/340 at offsets 0 and 4, "
+                  "side-by-side, wide element, 24 random) each under 7 specifications rotating through all of them")
     else:
         sweep = ("chain wrappers: every L in 8..520 and 900; the 22 other wrappers: every L in 150..260 and 330..370, "
                  "every 7th L elsewhere in 8..520, 900, and every L within 6 of the observed flip")
         eleph = "144..156 / 198 / 210 / 400"
         rnd = "30 000 seeded random values per mode"
+        colors = ("every specification x (every 5th value of the tiny scope, flat containers of 10 lengths 60..520 "
+                  "under every 3rd wrapper, side-by-side, wide element, 200 random values)")
     cov = b.coverage(
         rule=f"each case = (value, mode in {{json, python}}). Values by structure: a flat target container "
              f"(list | dict with string keys | dict with int keys [python mode]) of simple elements (ints / strings "
@@ -41,6 +46,15 @@ def run():
              f"text (plain_text / str), lines converted as they are yielded, list(result) of a fresh result with "
              f"the kept lines converted (plain_text and str) only after the iteration finished, and two iterators "
              f"of one result advanced alternately with their lines converted at the end. "
+             f"Colour dimension: case = (value, mode, colour specification); the 72 specifications are all "
+             f"combinations of palette (omitted | None | PPPalette class | a user's subclass | ready-made object of "
+             f"PPPalette / of the subclass / made from a custom ColorsConfig / synced | object made with "
+             f"no_color=True | object made from a no-colour config) x colors_conf (omitted | None | fresh "
+             f"ColorsConfig | custom colours | ColorsConfig(no_color=True) | custom colours with no_color=True) x "
+             f"no_color (True | omitted | False | None) that are documented calls (a ready palette object excludes "
+             f"colors_conf) and ask for no colours in at least one documented way (no_color=True, a no-colour "
+             f"palette object, a no-colour config); there str(result) - the text as printed - must read back, as "
+             f"well as plain_text(); {colors}. "
              f"non-trivial = the output has more than one line",
         exhaustive=False,
         extra={'clauses': ['C11.json_roundtrip', 'C11.python_roundtrip', 'C11.sorted_keys',
@@ -64,5 +78,9 @@ def run():
                    "json.loads and ast.literal_eval (stdlib) are the JSON parser / Python literal evaluator of "
                    "the statement",
                    "tuples and other non-JSON values are outside the statement and not generated",
+                   "'no-color output' = output of a call that asks for no colours in a documented way: no_color=True "
+                   "(whatever palette class / palette object / colors_conf accompanies it), a palette object created "
+                   "with no_color=True or from ColorsConfig(no_color=True), or colors_conf=ColorsConfig(no_color=True); "
+                   "a ready palette object together with colors_conf is a documented error and is not generated",
                    "bounded: containers up to ~520 columns of one-line rendering, depth <= 4 (+3 wrapper levels)"],
                   t0)
